@@ -558,6 +558,49 @@ func runC18(c *core.Ctx) {
 		}
 	}
 
+	// metadata that lists several signing certificates (a rollover in progress): a response signed by the key of ANY listed certificate is
+	// valid, whatever else the certificates have in common (idp1twin: another key under idp1's subject name and serial number, as
+	// fixed-serial tooling produces; the same certificate listed twice; a leaf next to its CA), and a key not listed stays refused
+	c.Group("metadata-listing-several-signing-certificates")
+	for _, listed := range [][]string{{"idp1", "idp1twin"}, {"idp1twin", "idp1"}, {"idp1", "idp1", "idp1twin"}, {"idp1", "idp2", "idp1twin"}, {"idp1twin"}, {"idp1", "idp1"}, {"idp2", "idpenc", "idp1"}, {"idpcaleaf", "idpca", "idp1twin"}} {
+		for _, signer := range []string{"idp1", "idp1twin", "idp2", "idpenc", "idpcaleaf", "attacker"} {
+			for _, enc := range []string{"form", "redirect", "request-post"} {
+				listed, signer, enc := listed, signer, enc
+				key := fmt.Sprintf("trust=metacerts:%s/signed-by=%s/%s", strings.Join(listed, ","), signer, enc)
+				c.Case(key, func(t *core.T) {
+					t.NonTrivial()
+					sp := harness.NewSP(harness.SPOpt{Trust: "metacerts:" + strings.Join(listed, ",")})
+					saml.MaxIssueDelay, saml.MaxClockSkew = tols[0].delay, tols[0].skew
+					off, present := c18IIs[0].off(tols[0].delay, tols[0].skew)
+					doc := c18Build(c18Dests[0].v, c18Issuers[0].v, c18Statuses[0], off, present, "valid", samlgen.Key(signer))
+					err, pan := call(sp, enc, doc)
+					t.Impl(1)
+					t.Compared()
+					if pan != "" {
+						t.Fail("C18/"+enc+"/panic@"+pan[strings.LastIndex(pan, "@")+1:], "panicked: %s", pan)
+						return
+					}
+					isListed := false
+					for _, l := range listed {
+						isListed = isListed || l == signer
+					}
+					t.Outcome(fmt.Sprint(err == nil))
+					if isListed {
+						t.Modelled(core.MustAccept)
+						if err != nil {
+							t.Fail("C18/"+enc+"/rejects-valid/signer-is-one-of-several-listed-certificates", "%s: the metadata lists a signing certificate for %s's key, the response it signed is refused: %s", key, signer, privErr(err))
+						}
+					} else {
+						t.Modelled(core.MustReject)
+						if err == nil {
+							t.Fail("C18/"+enc+"/reports-valid/signer-is-not-among-the-listed-certificates", "%s: signed by %s, which the metadata does not list, and reported valid", key, signer)
+						}
+					}
+				})
+			}
+		}
+	}
+
 	// the pinned certificate is the only trust anchor: IDPCertificate names idp2 while the metadata lists idp1
 	c.Group("pinned-certificate-differs-from-metadata")
 	for _, signer := range []string{"idp1", "idp2", "attacker"} {
